@@ -149,7 +149,40 @@ def digest_program():
         cal.add_missing_timezones(first_date=date(2020, 1, 1), last_date=date(2022, 1, 1))
         out.append(hashlib.sha256(cal.to_ical()).hexdigest()[:16])
         out.append(",".join(t.tz_name for t in cal.timezones))
+    out += mixed_programs()
     print(json.dumps(out))
+
+
+def mixed_programs():
+    """values whose rendering could be routed through a set or a dict keyed by names or types: mixed lists,
+    many parameters, many rule parts (cheap, so they are also run under a dozen hash seeds)"""
+    from zoneinfo import ZoneInfo
+    utc = ZoneInfo("UTC")
+    out = []
+    per = (datetime(2024, 1, 6, 10, tzinfo=utc), timedelta(hours=1))
+    per2 = (datetime(2024, 1, 6, 10), datetime(2024, 1, 6, 12))
+    mixes = [[date(2024, 1, 5), per], [per, date(2024, 1, 5)], [date(2024, 1, 5), per2], [date(2024, 1, 5), datetime(2024, 1, 6, 10)],
+             [datetime(2024, 1, 6, 10), date(2024, 1, 5), per2], [per, datetime(2024, 1, 6, 10, tzinfo=utc)],
+             [tzp.localize(datetime(2024, 1, 6, 10), "Europe/Berlin"), tzp.localize(datetime(2024, 1, 6, 10), "Asia/Tokyo")],
+             [datetime(2024, 1, 6, 10, tzinfo=utc), tzp.localize(datetime(2024, 1, 6, 10), "Asia/Tokyo"), date(2024, 1, 1)]]
+    for mix in mixes:
+        for name in ("rdate", "exdate", "freebusy"):
+            e = Event()
+            try:
+                e.add(name, mix)
+                out.append(hashlib.sha256(e.to_ical()).hexdigest()[:16])
+            except Exception as x:   # noqa: BLE001
+                out.append("EXC:" + type(x).__name__)
+    e = Event()
+    e.add("attendee", "mailto:a@example.com", parameters={"cn": "A", "role": "CHAIR", "x-b": "1", "member": ["m1", "m2"], "rsvp": "TRUE",
+                                                       "partstat": "ACCEPTED", "x-a": "2", "delegated-to": ["d1", "d2"], "language": "en"})
+    e.add("rrule", {"freq": "yearly", "until": datetime(2030, 1, 1, tzinfo=utc), "interval": 2, "bymonth": [5, 3], "byday": ["-1SU", "MO"],
+                    "byhour": [1], "bysetpos": [-1], "wkst": "SU", "byminute": [0, 30], "byyearday": [100], "byweekno": [20]})
+    e.add("categories", ["b", "a", "c", "a"])
+    e.add("x-multi", "v", parameters={n: "1" for n in ("zeta", "alpha", "Mid", "x-1", "x-10", "x-2")})
+    out.append(hashlib.sha256(e.to_ical()).hexdigest()[:16])
+    out.append(hashlib.sha256(e.to_ical(sorted=False)).hexdigest()[:16])
+    return out
 
 
 def run(ctx: Ctx):
@@ -207,6 +240,20 @@ def run(ctx: Ctx):
         if bad or len(d) != len(ref):
             ctx.fail("P:C10:hash-seed-independent" if seed.endswith("/none") else "P:C10:function-of-the-tree", {"configuration": seed, "programs": bad[:5]}, [d[i] for i in bad[:3]], [ref[i] for i in bad[:3]])
     ctx.notes.append(f"hash-seed configurations compared: {sorted(digests)} x {len(ref)} programs")
+    mixed = {}
+    for seed in range(12 if ctx.quick else 40):
+        p = subprocess.run([sys.executable, "-c", "import json; from vf.props.c10 import mixed_programs; print(json.dumps(mixed_programs()))"],
+                           capture_output=True, text=True, env=dict(os.environ, PYTHONHASHSEED=str(seed)), cwd=str(VERIF), timeout=600)
+        if p.returncode != 0:
+            raise Machinery(f"mixed-programs subprocess failed: {p.stderr[-500:]}")
+        mixed[seed] = json.loads(p.stdout.strip().splitlines()[-1])
+        ctx.evaluations += len(mixed[seed])
+        bad = [i for i, (a, b) in enumerate(zip(mixed[0], mixed[seed])) if a != b]
+        if bad:
+            ctx.fail("P:C10:hash-seed-independent", {"configuration": f"{seed}/mixed", "programs": bad[:5]}, [mixed[seed][i] for i in bad[:3]],
+                     [mixed[0][i] for i in bad[:3]])
+    if all(x.startswith("EXC:") for x in mixed[0][:24]):
+        raise Machinery("mixed programs: every mixed list was refused (vacuous)")
 
     # ------------------------------------------------------------- RECORD: random trees
     from vf.props.c20 import random_tree
